@@ -408,6 +408,13 @@ def inline_call(raw, bidx, iidx, graw):
                 ni["cases"] = [{"v": c["v"], "b": bmap[c["b"]]} for c in ni["cases"]]
             if "default" in ni and ni["default"] is not None:
                 ni["default"] = bmap[ni["default"]]
+            if ni["op"] == "call" and ni.get("callee") in (None, "", "<indirect>") and ni.get("ops"):
+                last = ni["ops"][-1]
+                for _ in range(3):
+                    if isinstance(last, dict) and last.get("k") == "ce" and last.get("ops"):
+                        last = last["ops"][0]           # a cast of the function's address
+                if isinstance(last, dict) and last.get("k") == "g" and last.get("name"):
+                    ni["callee"] = last["name"]          # a function-pointer parameter bound to a known function
             if ni["op"] == "ret":
                 rets.append((nb["id"], ni["ops"][0] if ni.get("ops") else None))
                 ni = {"id": ni["id"], "op": "br", "cond": False, "ops": [{"k": "b", "id": cont_id}], "succ": [cont_id], "ty": "void", "file": ni.get("file"), "line": ni.get("line"), "inlined_from": graw["name"]}
@@ -456,6 +463,53 @@ def inline_call(raw, bidx, iidx, graw):
                 if i.get("incoming"):
                     for x in i["incoming"]:
                         x["v"] = sub(x["v"])
+
+
+def lower_selects(M):
+    """Turn every `select c, a, b` into a diamond (branch on c, phi of a / b carrying the select's id), so that path
+    rules see a conditional expression (`return x ? E : 0`) exactly like the equivalent if/else."""
+    n = 0
+    for f in M.raw["functions"]:
+        if f.get("decl"):
+            continue
+        changed = True
+        guard = 0
+        while changed and guard < 500:
+            changed = False
+            guard += 1
+            next_i = max(i["id"] for b in f["blocks"] for i in b["insts"]) + 1
+            next_b = max(b["id"] for b in f["blocks"]) + 1
+            for B in f["blocks"]:
+                hit = None
+                for k, i in enumerate(B["insts"]):
+                    if i["op"] == "select" and len(i.get("ops", [])) == 3 and (i.get("ty") or "").startswith(("i", "%", "{", "[", "p")) or (i["op"] == "select" and len(i.get("ops", [])) == 3):
+                        hit = (k, i)
+                        break
+                if hit is None:
+                    continue
+                k, S = hit
+                tb, fb, jb = next_b, next_b + 1, next_b + 2
+                T = {"id": tb, "name": "sel.t", "succ": [jb], "insts": [{"id": next_i, "op": "br", "cond": False, "ops": [{"k": "b", "id": jb}], "succ": [jb], "ty": "void", "file": S.get("file"), "line": S.get("line")}]}
+                Fb = {"id": fb, "name": "sel.f", "succ": [jb], "insts": [{"id": next_i + 1, "op": "br", "cond": False, "ops": [{"k": "b", "id": jb}], "succ": [jb], "ty": "void", "file": S.get("file"), "line": S.get("line")}]}
+                J = {"id": jb, "name": "sel.j", "succ": list(B["succ"]), "insts": [{"id": S["id"], "op": "phi", "ty": S.get("ty"), "file": S.get("file"), "line": S.get("line"),
+                                                                                   "incoming": [{"b": tb, "v": S["ops"][1]}, {"b": fb, "v": S["ops"][2]}]}] + B["insts"][k + 1:]}
+                old_succ = list(B["succ"])
+                B["insts"] = B["insts"][:k] + [{"id": next_i + 2, "op": "br", "cond": True, "ops": [S["ops"][0], {"k": "b", "id": fb}, {"k": "b", "id": tb}], "succ": [tb, fb], "ty": "void", "file": S.get("file"), "line": S.get("line")}]
+                B["succ"] = [tb, fb]
+                for sb in f["blocks"]:
+                    if sb["id"] in old_succ:
+                        for i in sb["insts"]:
+                            if i.get("incoming"):
+                                for x in i["incoming"]:
+                                    if x["b"] == B["id"]:
+                                        x["b"] = jb
+                f["blocks"].extend([T, Fb, J])
+                n += 1
+                changed = True
+                break
+        if guard > 1:
+            M.functions[f["name"]] = Function(f, M)
+    return n
 
 
 def inline_new_helpers(M, max_blocks=60, budget=64):
@@ -531,6 +585,7 @@ def load_modules(units, inline=True):
             M.inlined = []
             if inline:
                 inline_new_helpers(M)
+                lower_selects(M)
             mods[u["src"]] = M
     return mods
 
@@ -725,6 +780,18 @@ def expr_str(F, v, depth=0):
     if I.op == "getelementptr":
         return "gep(%s,%s)" % (expr_str(F, I.ops[0], depth + 1), I.raw.get("off"))
     if I.op == "phi":
+        # a phi fed only by constants (the verdict of an inlined predicate / check helper) is named by its values, so
+        # that sibling functions with the same structure compare equal; other phis stay identified by instruction
+        cs = []
+        for inc in (I.incoming or []):
+            v = inc["v"]
+            if isinstance(v, dict) and v.get("k") == "c" and isinstance(v.get("v"), int):
+                cs.append(v["v"])
+            else:
+                cs = None
+                break
+        if cs:
+            return "phi{%s}" % ",".join(str(c) for c in sorted(set(cs)))
         return "phi#%d" % I.id
     if I.op == "icmp":
         return "icmp_%s(%s,%s)" % (I.pred, expr_str(F, I.ops[0], depth + 1), expr_str(F, I.ops[1], depth + 1))
